@@ -236,6 +236,29 @@ def _mk(spec, e, opts):
     return Lark(e.grammar, **opts)
 
 
+class StandaloneNeedsLark(Exception):
+    pass
+
+
+def _foreign_objects(roots):
+    """type names of objects reachable from the module's DATA / MEMO whose class lives in the lark package"""
+    out, seen, stack = set(), set(), list(roots)
+    while stack:
+        o = stack.pop()
+        if id(o) in seen:
+            continue
+        seen.add(id(o))
+        mod = getattr(type(o), '__module__', '') or ''
+        if mod == 'lark' or mod.startswith('lark.'):
+            out.add('%s.%s %r' % (mod, type(o).__name__, o if isinstance(o, str) else ''))
+        if isinstance(o, dict):
+            stack.extend(o.keys())
+            stack.extend(o.values())
+        elif isinstance(o, (list, tuple, set, frozenset)):
+            stack.extend(o)
+    return out
+
+
 def _cache_store(d, P):
     """content of everything a cache= constructor of this pipeline may read or write"""
     out = {}
@@ -340,6 +363,11 @@ def node(job):
                 path = P[{'standalone': 'sa', 'standalone_compressed': 'sac', 'standalone_cli': 'sacli'}[do]]
                 m = types.ModuleType('sa_' + os.path.basename(path)[:-3])
                 exec(compile(open(path).read(), path, 'exec'), m.__dict__)
+                foreign = _foreign_objects([m.DATA, m.MEMO])
+                if foreign:
+                    # "stand-alone": nothing the module restores may be an object of the lark package (this node has lark on its path, so
+                    # unpickling such an object silently works here and fails where the module is meant to run)
+                    raise StandaloneNeedsLark('the data of the generated module holds objects of lark itself: %s' % ', '.join(sorted(foreign)[:5]))
                 kw = dict(user)
                 if st.get('decoy'):
                     # the generated module is instantiated more than once: an earlier instance with OTHER load-time options must leave
